@@ -377,6 +377,8 @@ var hosts = []host{
 	{name: "svg style element after non-ASCII title", hostType: "image/svg+xml", build: func(p string) string {
 		return "<svg><title>" + nonASCII + "</title><style>" + xmlTextEscape(p) + "</style><g/></svg>"
 	}, wantType: "text/css", pre: strings.TrimSpace, extract: svgStyleText},
+	// the style element names its own language (SVG 1.1 6.2: the type attribute of style overrides contentStyleType)
+	{name: "svg style element type=text/x-foo", hostType: "image/svg+xml", build: func(p string) string { return "<svg><style type=\"text/x-foo\">" + xmlTextEscape(p) + "</style><g/></svg>" }, wantType: "text/x-foo", pre: strings.TrimSpace, extract: svgStyleText},
 	{name: "svg style element", hostType: "image/svg+xml", build: func(p string) string { return "<svg><style>" + xmlTextEscape(p) + "</style><g/></svg>" }, wantType: "text/css", pre: strings.TrimSpace, extract: svgStyleText},
 	{name: "svg style CDATA", hostType: "image/svg+xml", build: func(p string) string { return "<svg><style><![CDATA[" + p + "]]></style><g/></svg>" }, wantType: "text/css", pre: ident, extract: svgStyleText},
 	{name: "svg style= attribute", hostType: "image/svg+xml", build: func(p string) string { return "<svg><g style=\"" + xmlAttrEscape(p) + "\"/></svg>" }, wantType: "text/css", wantParams: "inline=1;", pre: xmlAttrNorm, extract: svgAttr("g", "style"), attr: true},
